@@ -41,9 +41,12 @@ fn acc_strategy(max_m: usize, max_n: u64, work: u64) -> impl Strategy<Value = Ac
         let n = n.max(1);
         let ss = SsParams::documented(b, m, (n as f64).max(10.0), 1.0e-6);
         let wide = wide || ss.q + 1 > 65534;
-        // first item costs ~m, later ones less; budget in item insertions
-        let per_trial = n * dup as u64 + 4 * m as u64;
-        let trials = (work / per_trial).clamp(600, 40_000);
+        // budget in register operations: an insertion touches all m registers until the lower bound becomes active (about m ln m
+        // items), afterwards about m^2 / i registers for the i-th item
+        let (nf, mf) = (n as f64, m as f64);
+        let per_item_total = if nf <= mf { nf * mf } else { mf * mf + 4.0 * mf * mf * (nf / mf).ln() + nf };
+        let per_trial = ((dup as f64) * per_item_total + 8.0 * mf) as u64;
+        let trials = (work / per_trial.max(1)).clamp(600, 40_000);
         AccCase { wide, m, ss, n, dup, trials, seed }
     })
 }
@@ -296,7 +299,7 @@ pub fn run(ctx: &Ctx) {
     ctx.assume("the expectation claim is tested from m = 16 (for m <= 2 the estimator has infinite variance and no mean-based test is sound) and uses a normal approximation with z = 7.5; the spread claim from m = 64 as stated");
     ctx.assume("rayon's reduction tree cannot be enumerated; agreement is checked to a tolerance that covers every summation order");
     super::run_fixed_tier(ctx, replay);
-    let (cases, max_m, max_n, work) = ctx.tier.pick((96, 1024, 20_000, 10_000_000), (1600, 4096, 2_000_000, 100_000_000));
+    let (cases, max_m, max_n, work) = ctx.tier.pick((96, 1024, 20_000, 400_000_000), (1600, 4096, 2_000_000, 3_000_000_000));
     ctx.drive("accuracy", cases, 16, 12, || acc_strategy(max_m, max_n, work), eval_acc);
     let (cases, max_m, max_pool) = ctx.tier.pick((6_000, 256, 500), (150_000, 1024, 3000));
     ctx.drive("monotone-and-parallel", cases, 16, 1000, || mono_strategy(max_m, max_pool), eval_mono);
